@@ -548,6 +548,9 @@ func (i *interpreter) unop(instr *ssa.UnOp, x value) value {
 		if p == nil {
 			panic(i.nilDeref())
 		}
+		if i.race != nil {
+			i.raceRead(mustDeref(instr.X.Type()), p)
+		}
 		return load(mustDeref(instr.X.Type()), p)
 	case token.NOT:
 		return i.notV(x)
